@@ -30,7 +30,7 @@ def half(c):
     return "t" if c is None else ",".join(map(str, c))
 
 
-def shows_grid(driver: str, out: str, w: int, h: int, kind: str):
+def shows_grid(driver: str, out: str, w: int, h: int, kind: str, invisible_bg=None):
     """interpret the real string on the Lean terminal model and read what every cell shows"""
     toks = tk.tokenize(out)
     r = fw.run_driver(driver, [f"term.run {w} {h} {kind} 0 0 0 0 {tk.wire(toks)}"])[0].split(" ")
@@ -51,6 +51,8 @@ def shows_grid(driver: str, out: str, w: int, h: int, kind: str):
             _, g, fg, bg = cell.split(":")
             fgc = None if fg == "d" else tuple(map(int, fg.split(",")))
             bgc = None if bg == "d" else tuple(map(int, bg.split(",")))
+            if invisible_bg is not None and bgc == tuple(invisible_bg):
+                bgc = None  # kitty does not paint a cell background equal to its default background
             row.append({"B": (bgc, bgc), "U": (fgc, bgc), "L": (bgc, fgc)}.get(g, ("?", "?")))
         rows.append(row)
     return rows
@@ -177,7 +179,10 @@ class C02(Property):
         w, h = d["_size"]
         where = f"{d['mode']}/{d['pattern']}/{d['shape']}/alpha={d['alpha']}/{w}x{h}/bg={d['bg']}/kitty={int(d['kitty_term'])}"
         try:
-            grid = shows_grid(self.driver, out, w, h, "kitty" if d["kitty_term"] else "other")
+            # on kitty a cell background equal to the terminal's default background is not painted:
+            # read it as "shows the terminal's own background" (this is what the library's workaround is for)
+            grid = shows_grid(self.driver, out, w, h, "kitty" if d["kitty_term"] else "other",
+                              invisible_bg=d["bg"] if d["kitty_term"] else None)
         except tk.TokenizeError as e:
             return Failure(f"tokenize/{where}", str(e))
         src = imgkit.make_image(d)
